@@ -21,6 +21,7 @@ import Proofs.Lemmas.Router.Rp2_Will
 import Proofs.Lemmas.Router.Rp2_Examples
 import Proofs.Lemmas.Router.Rp2_Reach
 import Proofs.Lemmas.Router.Rp2_Replay
+import Proofs.Lemmas.Router.Rp14_Retained
 namespace C15
 open Router
 
@@ -238,6 +239,96 @@ theorem replay_content_in_every_history (cfg : Config) (s s' : RState) (choices 
     `appended` events of the ghost history, emitted exactly by `Data::append`) is unflagged -/
 theorem live_copies_never_flagged (cfg : Config) (s : RState) (h : Reachable2 cfg s) :
     ∀ e ∈ appendedEvents s.ghost, e.2.retain = false := (reachable_histInv h).copies
+
+
+/-! ### reachable states and runs (the shared `Reachable` of C01 / C03 / C08 / C14 / C17) -/
+
+/-- every state reachable in the sense of the other properties (`Reachable`: an error-free run from
+    `init cfg`) is reachable in the sense of this file (`Reachable2`), so the history invariants above
+    hold for it: one retained entry per topic, each flagged and non-empty, every log copy unflagged -/
+theorem reachable_retained_invariants {cfg : Config} {s : RState} (hr : Reachable cfg s) :
+    Reachable2 cfg s ∧ RetainedKeysUnique s ∧ RetainedFlagged s ∧ ∀ e ∈ appendedEvents s.ghost, e.2.retain = false :=
+  ⟨hr.to2, (reachable_histInv hr.to2).ret.1, (reachable_histInv hr.to2).ret.2, (reachable_histInv hr.to2).copies⟩
+
+/-- C15 `retained_is_latest_per_topic`. In every reachable state, `datalog.retained` maps topic `t` to `p`
+    EXACTLY IF `p` is the most recent accepted retained publish on `t` (client publish or will; the ghost
+    `accepted` events, in acceptance order) and has a non-empty payload: the accepted publishes split as
+    `pre ++ (origin, p, t) :: post` with `p.retain`, `p.payload ≠ []` and no retained publish on `t` in
+    `post`. Hence a topic has NO retained message exactly if no retained publish on it was ever accepted
+    or the most recent one had an empty payload (it cleared the entry). -/
+theorem retained_is_latest_per_topic {cfg : Config} {s : RState} (hr : Reachable cfg s) (t : String) (p : Pub) :
+    alookup t s.datalog.retained = some p ↔
+      ∃ pre origin post, acceptedEvents s.ghost = pre ++ (origin, p, t) :: post ∧
+        p.retain = true ∧ p.payload.isEmpty = false ∧ ∀ e ∈ post, e.2.2 = t → e.2.1.retain = false := by
+  rw [(reachable_histInv hr.to2).latest t, retainedSpec_some_iff]
+  constructor
+  · rintro (h | ⟨h, _⟩)
+    · exact h
+    · cases h
+  · exact fun h => .inl h
+
+/-- C15 `first_sweep_replays_matching_retained` (reachable states). A sweep of a non-shared request whose
+    replay flag is set — the request of a NEW subscription (`subscribe_requests_replay_iff_new_and_not_shared`)
+    — either stops on a full inflight window before reading anything (state unchanged, flag kept: the
+    replay happens in a later sweep), or clears the flag and reads `ps`: in the iteration order `order`
+    the oracle supplies, a permutation of EXACTLY the retained messages whose topic matches the filter
+    (each once, nothing else), all flagged retain; and unless the sweep writes nothing at all, the link
+    buffer receives first the replay `ps.take window` — `window` = the free inflight slots (QoS > 0) or
+    `max_outgoing_packet_count` (QoS 0) — each with retain flag and payload and without cursor, and only
+    then the live log entries with their cursors. -/
+theorem first_sweep_replays_matching_retained {cfg : Config} {s s' : RState} (hr : Reachable cfg s) (ch : List Choice)
+    {id : Nat} {c : Conn} {req req' : DataRequest} {st : ConsumeStatus} (hc : getConn s id = some c)
+    (hfr : req.forwardRetained = true) (hg : req.group = none)
+    (h : forwardDeviceData { s with oracle := ch } id req = .ok (s', req', st)) :
+    (st = .inflightFull ∧ s' = { s with oracle := ch } ∧ req'.forwardRetained = true) ∨
+    (st ≠ .inflightFull ∧ req'.forwardRetained = false ∧
+      ∃ order rest ps, ch = .retained order :: rest ∧
+        ps = order.filterMap (fun t => alookup t s.datalog.retained) ∧
+        ps.Perm (matchingRetained s req.filter) ∧ (∀ p ∈ ps, p.retain = true) ∧
+        ((getLink s' c.link).obuf = (getLink s c.link).obuf ∨
+         ∃ (live : List (Pub × Cursor)) (ns tail : List Notif),
+          (getLink s' c.link).obuf = (getLink s c.link).obuf ++ ns ++ tail ∧
+          (tail = [] ∨ tail = [Notif.unschedule]) ∧
+          ns.map Notif.content =
+            (ps.take (if req.qos ≠ 0 then c.out.freeSlots else s.config.maxOutgoingPacketCount)).map
+              (fun p => some (p.retain, p.payload, none)) ++
+            live.map (fun e => some (e.1.retain, e.1.payload, some e.2)))) := by
+  have hc' : getConn { s with oracle := ch } id = some c := hc
+  have hi := (reachable_histInv hr.to2).ret
+  rcases (forwardDeviceData_spec hc' h).2.2.2.2.2 with ⟨e1, e2, e3⟩ | ⟨e1, e2⟩
+  · exact .inl ⟨e1, e2, e3.trans hfr⟩
+  · refine .inr ⟨e1, e2, ?_⟩
+    rcases forwardDeviceData_replay_slots hc' hfr h with ⟨e, _⟩ | ⟨s1, ps, hrr, hcase⟩
+    · exact absurd e e1
+    · obtain ⟨order, rest, a, b, _, d⟩ := readRetained_spec hrr
+      refine ⟨order, rest, ps, a, b, d hi.1, readRetained_flagged hrr hi.2, ?_⟩
+      rw [fwdSlots_plain _ c req hg] at hcase
+      exact hcase
+
+/-- C15 `replay_at_most_once` (runs). Over any run with the premises of `C01.delivery_is_prefix` — the
+    connection stays, sends no UNSUBSCRIBE of `f` (it MAY repeat its SUBSCRIBE of `f`: a repeated
+    SUBSCRIBE tracks no new request, `replay_on_new_nonshared_subscription_only`), within the retention —
+    the request of the non-shared subscription `(a, f)` is handed on from state to state (request
+    conservation: it is THE request of that subscription, C03), and once its replay flag is clear — it
+    is after the first sweep that read anything, `forward_retained_consumed_once` — it is clear at the end
+    of the run: the retained messages are not replayed a second time on that subscription. -/
+theorem replay_at_most_once {cfg : Config} (h1 : 1 ≤ cfg.maxSegmentSize) (h2 : 1 ≤ cfg.maxSegmentCount)
+    (hpos : 0 < cfg.maxOutgoingPacketCount) {a : Nat} {cid f : String} (ops : List (Op × List Choice))
+    {s s2 : RState} {r : DataRequest} (hr : Reachable cfg s) (hrun : run s ops = .ok s2) (hno : Rp3.NoOverflow s2)
+    (hquiet : QuietRun a cid f s ops) (hown : Own s a r) (hf : r.filter = f) (hplain : r.group = none)
+    (hclear : r.forwardRetained = false) :
+    ∃ r2, Own s2 a r2 ∧ r2.filter = f ∧ r2.group = none ∧ r2.forwardRetained = false := by
+  obtain ⟨r2, o2, f2, g2, k⟩ := run_thread_flag h1 h2 hpos ops hr hrun hno hquiet hown hf hplain
+  exact ⟨r2, o2, f2, g2, k hclear⟩
+
+/-- and a sweep of a request whose flag is clear replays nothing: what it writes to the link are live
+    log entries only (each with a cursor) -/
+theorem cleared_flag_replays_nothing (s s1 : RState) (req : DataRequest) (slots slots' : Nat)
+    (rp : List (Pub × Option Cursor)) (hfl : req.forwardRetained = false)
+    (h : fwdRetained s req slots = .ok (s1, rp, slots')) : rp = [] ∧ s1 = s := by
+  rcases (fwdRetained_spec h).2.2 with ⟨_, b, c⟩ | ⟨a, _⟩
+  · exact ⟨b, c⟩
+  · rw [hfl] at a; cases a
 
 /-! ### non-vacuity -/
 
